@@ -35,7 +35,7 @@ RULE = ("each run generates a redirect graph over 2-8 URLs on up to three hosts 
         "issues 1-3 fetches; results are compared with a walk of the graph. distinct = distinct "
         "(graph shape, max_redirects, result class) signatures; non-trivial = the walk contained "
         "at least one redirect")
-PROBES = ["chain_exactly_max", "chain_longer_than_max", "cycle", "self_loop", "cross_host_hop",
+PROBES = ["hop_closed_without_header", "redirect_target_host_in_upper_case", "chain_exactly_max", "chain_longer_than_max", "cycle", "self_loop", "cross_host_hop",
           "grey_target", "non_gemini_target", "cert_changed_on_hop", "cert_swapped_on_later_hop", "overlapping_fetches", "sql_fault_during_fetch", "follow_disabled",
           "max_redirects_zero", "final_after_redirects"]
 COMPONENTS = {
@@ -61,15 +61,22 @@ def run_one(ch):
         h = HOSTS[ch.choose("nhost", 3, [3, 2, 1])]
         nodes.append({"host": h, "path": f"/n{j}", "url": f"gemini://{h}/n{j}"})
     for j, nd in enumerate(nodes):
-        k = ch.choose("nkind", 10, [6, 24, 1, 1, 1, 1, 1, 1, 1, 1])
+        k = ch.choose("nkind", 11, [6, 24, 1, 1, 1, 1, 1, 1, 1, 1, 3])
         if k == 0:
             nd.update(kind="final")
+        elif k == 10:
+            # the server takes the request and closes without any header
+            nd.update(kind="drop")
         elif k == 1:
             t = ch.choose("target", nn)
-            style = ch.choose("tstyle", 3, [5, 1, 1])
+            style = ch.choose("tstyle", 4, [5, 1, 1, 1])
             tu = nodes[t]["url"]
             if style == 1:
                 tu = tu.replace("gemini://" + nodes[t]["host"], "gemini://" + nodes[t]["host"] + ":1965")
+            elif style == 3:
+                # host names are case-insensitive: the same endpoint, the same pin
+                tu = tu.replace("gemini://" + nodes[t]["host"], "gemini://" + nodes[t]["host"].upper())
+                nd["spelled"] = True
             nd.update(kind="redirect", target=t, meta=tu, status=ch.pick("rstatus", [30, 31]))
         else:
             grey = {
@@ -113,6 +120,8 @@ def run_one(ch):
                 nd = next((n for n in nodes if n["host"] == host and n["path"] == path.split("?")[0]), None)
                 if nd is None:
                     peer.send_app(b"51 no such node\r\n")
+                elif nd["kind"] == "drop":
+                    pass
                 elif nd["kind"] == "final":
                     peer.send_app(f"20 text/plain\r\nnode {nd['path']} on {host}\n".encode())
                 else:
@@ -225,13 +234,17 @@ def run_one(ch):
                 verdict = ("changed", h_, k)
                 break
             if not f["follow"]:
-                verdict = ("final", cur, k) if nd["kind"] == "final" else ("3x", cur, k)
+                verdict = ("final", cur, k) if nd["kind"] == "final" else \
+                    ("drop", cur, k) if nd["kind"] == "drop" else ("3x", cur, k)
                 break
             if nd["kind"] == "final":
                 verdict = ("final", cur, k)
                 break
             if nd["kind"] == "grey":
                 verdict = ("grey", cur, k)
+                break
+            if nd["kind"] == "drop":
+                verdict = ("drop", cur, k)
                 break
             # absolute gemini redirect
             if k >= max_r:
@@ -247,6 +260,8 @@ def run_one(ch):
                 break
             if nodes[nxt]["host"] != nd["host"]:
                 st["cross_host_hop"] = 1
+            if nd.get("spelled"):
+                st["redirect_target_host_in_upper_case"] = 1
             k += 1
             cur = nxt
         if k:
@@ -323,6 +338,12 @@ def run_one(ch):
             if nconn is not None and nconn != 1:
                 res.violate("C16/follow-disabled-connection-count",
                             f"{nconn} connections with follow_redirects=False", **ctx)
+        elif v == "drop":
+            st["hop_closed_without_header"] = 1
+            if got[0] == "resp":
+                res.violate("C16/response-from-nowhere",
+                            "the last hop closed without sending a header, yet a response was "
+                            "returned", **ctx)
         elif v == "grey":
             st["grey_target"] = 1
             nd = nodes[verdict[1]]
